@@ -12,6 +12,7 @@ package main
 
 import (
 	"fmt"
+	"go/constant"
 	"go/token"
 	"go/types"
 	"sort"
@@ -213,6 +214,59 @@ func scalarHelperPaths(call *ssa.Call) [][]*ssa.BasicBlock {
 	}
 	helperPathCache[f] = out
 	return out
+}
+
+// boolConst: the constant a boolean value is bound to on this path (through phis and the results of inlined
+// helper calls), if any.
+func (pc *pathCtx) boolConst(v ssa.Value, depth int) (val, known bool) {
+	if depth > 20 {
+		return false, false
+	}
+	switch x := v.(type) {
+	case *ssa.Const:
+		if x.Value != nil && x.Value.Kind() == constant.Bool {
+			return constant.BoolVal(x.Value), true
+		}
+	case *ssa.UnOp:
+		if x.Op == token.NOT {
+			b, ok := pc.boolConst(x.X, depth+1)
+			return !b, ok
+		}
+	case *ssa.Phi:
+		var pos map[*ssa.BasicBlock]int
+		var path []*ssa.BasicBlock
+		if x.Parent() == pc.kernel {
+			pos, path = pc.pos, pc.path
+		} else if fr := pc.cur; fr != nil && x.Parent() == fr.fn {
+			pos, path = fr.pos, fr.path
+		}
+		if i, on := pos[x.Block()]; on && i > 0 {
+			for k, pr := range x.Block().Preds {
+				if pr == path[i-1] {
+					return pc.boolConst(x.Edges[k], depth+1)
+				}
+			}
+		}
+	case *ssa.Extract:
+		if call, ok := x.Tuple.(*ssa.Call); ok && pc.cur == nil {
+			if fr := pc.frames[call]; fr != nil && fr.ret != nil && x.Index < len(fr.ret.Results) {
+				pc.cur = fr
+				b, k := pc.boolConst(fr.ret.Results[x.Index], depth+1)
+				pc.cur = nil
+				return b, k
+			}
+		}
+	case *ssa.Call:
+		if pc.cur == nil {
+			if fr := pc.frames[x]; fr != nil && fr.ret != nil && len(fr.ret.Results) == 1 {
+				pc.cur = fr
+				b, k := pc.boolConst(fr.ret.Results[0], depth+1)
+				pc.cur = nil
+				return b, k
+			}
+		}
+	}
+	return false, false
 }
 
 func (pc *pathCtx) symOf(v ssa.Value) string {
@@ -866,8 +920,8 @@ func checkMassBalance(p *Program, r *Report) {
 		// evaluate one path (with the given helpers inlined along the given paths of theirs)
 		type verdict struct {
 			feasible, flush bool
-			residual       poly
-			pc             *pathCtx
+			residual        poly
+			pc              *pathCtx
 		}
 		evaluate := func(path []*ssa.BasicBlock, frames map[*ssa.Call]*frame) verdict {
 			pc := newCtx(path, frames)
@@ -884,6 +938,11 @@ func checkMassBalance(p *Program, r *Report) {
 					vd.feasible = false
 				}
 				condVal[ck] = v
+				pc.cur = fr
+				if b, known := pc.boolConst(c, 0); known && b != v {
+					vd.feasible = false // the branch tests a value this path (or an inlined helper's path) fixes the other way
+				}
+				pc.cur = nil
 				bo, ok := c.(*ssa.BinOp)
 				if !ok {
 					return
